@@ -89,7 +89,17 @@ def WFseg (s : Str) : Bool := s â‰  [] && !s.contains '/' && s â‰  ['.'] && s â‰
 /-- No byte below or at '/' (so `value ++ "/" ++ id` orders like the pair (value, id)). -/
 def SepSafe (s : Str) : Bool := s.all (fun ch => decide ('/' < ch))
 
-/-- For the ORDER of a non-unique index: the value has no byte â‰¤ '/'. -/
+/-- `a` is a proper prefix of `b` and the next character of `b` is '/' or sorts below it: exactly the pairs of
+values for which `a ++ "/" ++ id` does NOT order like the pair (value, id). -/
+def lowSepPair (a b : Str) : Bool :=
+  a.isPrefixOf b && (match b.drop a.length with | ch :: _ => decide (ch < '/') || ch == '/' | [] => false)
+
+/-- Deviation `index-order-separator`: a non-unique index whose stored values contain such a pair. The ORDER
+theorems hold exactly outside it. -/
+def lowSepDev (i : Index) (m : Abs) : Bool :=
+  !i.unique && m.any (fun a => m.any (fun b => lowSepPair (i.sel.get a) (i.sel.get b)))
+
+/-- For the ORDER of a non-unique index, sufficient: the value has no byte â‰¤ '/'. -/
 def Index.wfObj (i : Index) (o : Obj) : Bool := i.unique || SepSafe (i.sel.get o)
 
 /-- A clean relative path: one or more clean segments separated by single slashes ("tasks/cpu" is, "a//b", "a/",
